@@ -16,6 +16,7 @@ import (
 type heldSinceEv struct {
 	lock   *types.Var
 	isLoad func(ssa.Instruction) bool
+	shared bool // a read lock counts as well (the writers it must exclude take the write lock)
 }
 
 func (h *heldSinceEv) Name() string { return "held(" + h.lock.Name() + ") since load" }
@@ -26,6 +27,14 @@ func (h *heldSinceEv) Instr(st uint8, ins ssa.Instruction) uint8 {
 			return st | 1
 		case "Unlock":
 			return 0
+		case "RLock":
+			if h.shared {
+				return st | 1
+			}
+		case "RUnlock":
+			if h.shared {
+				return 0
+			}
 		}
 		return st
 	}
@@ -41,12 +50,14 @@ func (h *heldSinceEv) Edge(st uint8, _ *ssa.BasicBlock, _ int) uint8 { return st
 func (h *heldSinceEv) Holds(st uint8) bool                           { return st == 3 }
 
 // mutexFieldsLockedIn: mutex fields with a Lock() call in fn.
+var atomicRMWShared bool // set around a call of atomicRMW that accepts read locks
+
 func mutexFieldsLockedIn(fn *ssa.Function) []*types.Var {
 	seen := map[*types.Var]bool{}
 	var out []*types.Var
 	for _, b := range fn.Blocks {
 		for _, ins := range b.Instrs {
-			if f, op, _ := lockOp(ins); f != nil && op == "Lock" && !seen[f] {
+			if f, op, _ := lockOp(ins); f != nil && (op == "Lock" || (atomicRMWShared && op == "RLock")) && !seen[f] {
 				seen[f] = true
 				out = append(out, f)
 			}
@@ -66,7 +77,7 @@ func (c *Ctx) atomicRMW(rule string, fn *ssa.Function, load, save Callee) {
 	var evs []Ev
 	init := uint64(0)
 	for _, l := range locks {
-		evs = append(evs, &heldSinceEv{l, isLoad})
+		evs = append(evs, &heldSinceEv{l, isLoad, atomicRMWShared})
 	}
 	// locks held by every caller count as held at entry
 	for _, cs := range c.P.Callers(fn) {
@@ -82,7 +93,7 @@ func (c *Ctx) atomicRMW(rule string, fn *ssa.Function, load, save Callee) {
 			}
 			if ok, _ := callersHold(c.P, fn, l, true, 2, map[*ssa.Function]bool{}); ok {
 				locks = append(locks, l)
-				evs = append(evs, &heldSinceEv{l, isLoad})
+				evs = append(evs, &heldSinceEv{l, isLoad, atomicRMWShared})
 				init = setSt(init, len(evs)-1, 1)
 			}
 		}
